@@ -59,7 +59,7 @@ theorem conv_self (r : GoRep) (s : Sc) (h : C19.HasRep r s) : conv r r s = some 
   cases r <;> cases s <;> simp [C19.HasRep] at h <;> simp [conv]
 
 /-- `PrimRT` for a field whose row has the shape of the regenerated type table (`C19.rowOK`): every representation
-but float32 (whose round trip is `C19_field_f32`, with the `bv_decide` axiom, for non-NaN values) -/
+but float32 (whose round trip is `C19_field_f32`, for non-NaN values) -/
 theorem primRT_of_row (info : FieldInfo) (k : PrimK) (hek : vkindOf info.tf.elemValueType = .prim k)
     (hmid : k.rep = C19.mid info.rep) (hto : repOfGoType info.tf.valueCastToType = some (C19.mid info.rep))
     (hnf : info.rep ≠ .f32) (hptr : info.isNullable = true → C19.mid info.rep = info.rep) : PrimRT info k where
